@@ -71,10 +71,17 @@ func shardsVar(n int, base Child) []Child {
 // plus386 adds one child that runs shard `shard` of the first child's sharding in the 32-bit build (GOARCH=386): the
 // portable code of every package instead of the amd64 assembly, 32-bit int and big.Word. Where 32-bit binaries cannot be
 // executed the driver leaves these children out.
-func plus386(out []Child, shard int) []Child {
+func plus386(out []Child, shard int) []Child { return plus386div(out, shard, 1) }
+
+// plus386div is plus386 with the 32-bit child's share of the cases divided by div (the portable code is several times
+// slower than the assembly; in the thorough tier a full shard would dominate the run time).
+func plus386div(out []Child, shard, div int) []Child {
 	ch := out[0]
 	ch.Flavour, ch.NCPU, ch.GOMAXPROCS = "386", 1, 0
 	ch.Shard = shard % ch.NShards
+	if div > 1 {
+		ch.NShards *= div
+	}
 	return append(out, ch)
 }
 
